@@ -1,4 +1,134 @@
-(* Case runner and spec checker (T3) for C08 — stub. *)
+(* Case runner and spec checker (T3) for C08. *)
 From WI Require Import Lib.Base Lib.Info Model.Cost.
-Definition run_C08 (op : bytes) (input : arg) : arg := AL [].
-Definition check_C08 (op : bytes) (input impl : arg) : arg := AL [].
+Open Scope N_scope.
+
+Definition aN (n : N) : arg := AZ (Z.of_N n).
+Definition obs_cres {A} (f : A -> arg) (m : cres A) : arg := obs_result f (fst m).
+
+(* uint64 as 8 big-endian bytes *)
+Definition u64be (n : N) : arg := AB (N_to_be 8 n).
+(* int(e.Int64()) of a big.Int given by its bytes, as uint64: the low 8 bytes *)
+Definition low8 (b : bytes) : arg := AB (N_to_be 8 (be_to_N (drop (length b - 8) b))).
+
+Fixpoint flatten_raw (r : raw) : list arg :=
+  match r with
+  | Raw c t len full ch => AL [aN c; aN t; aN len; aN full; aN (lenN ch)] :: flat_map flatten_raw ch
+  end.
+
+Definition arg_of_ix (i : rpm_index) : arg := AL [aN (ix_tag i); aN (ix_type i); aN (ix_off i); aN (ix_count i)].
+
+(* ---- the model's observation ---- *)
+Definition run_C08 (op : bytes) (input : arg) : arg :=
+  let data := arg_bytes (arg_nth 0 input) in
+  let aux := arg_bytes (arg_nth 1 input) in
+  if bytes_eqb op (bs "readall") then AL [AZ 0; aN (N.min (lenN data) max_read_size)]
+  else if bytes_eqb op (bs "ssh1") then
+    obs_cres (fun k => AL [AB (k_comment k); AB (k_n k); low8 (k_e k); AB (k_d k); AB (k_q k); AB (k_p k)]) (ssh1_parse data aux)
+  else if bytes_eqb op (bs "pgplen") then
+    obs_cres (fun x => match x with (l, p, _) => AL [u64be l; ok_arg p] end) (pgp_read_length data)
+  else if bytes_eqb op (bs "pgpmpi") then
+    obs_cres (fun x => match x with (m, bits, _) => AL [AB m; aN bits] end) (pgp_read_mpi data)
+  else if bytes_eqb op (bs "pgpopaque") then
+    match fst (pgp_opaque_all data) with
+    | (ps, e) => AL [AL (map (fun p => AL [aN (fst p); AB (snd p)]) ps); ok_arg e]
+    end
+  else if bytes_eqb op (bs "der") then
+    obs_cres (fun l => AL (flat_map flatten_raw l)) (der_parse_raw data)
+  else if bytes_eqb op (bs "b64") then obs_cres (fun d => aN (lenN d)) (b64_decode_any data)
+  else if bytes_eqb op (bs "jks") then obs_cres aN (jks_parse data)
+  else if bytes_eqb op (bs "rpm") then
+    obs_cres (fun hs => AL (map (fun h => AL (map arg_of_ix h)) hs)) (rpm_parse data)
+  else if bytes_eqb op (bs "stream") then
+    (* input: (length-or--1 pattern): the CLI reads min(length, cap) bytes and exits 0 *)
+    let len := arg_Z (arg_nth 0 input) in
+    AL [AZ 0; aN (if (len <? 0)%Z then max_read_size else N.min (Z.to_N len) max_read_size)]
+  else if bytes_eqb op (bs "file") then AL [AZ 0; AZ 1]
+  else if bytes_eqb op (bs "alloc") then
+    (* informational (this op is not compared): the model's cost account of the component *)
+    let comp := arg_bytes (arg_nth 0 input) in
+    match arg_nth 2 input with
+    | AB d =>
+        match component_log comp d (arg_bytes (arg_nth 3 input)) with
+        | Some l => AL [aN (log_cost l); ok_arg (log_trusting l)]
+        | None => AL []
+        end
+    | _ => AL []
+    end
+  else AL [].
+
+(* ---- the property, evaluated on what the implementation did (T3) ----
+   Constants typed from the property text and fixed here:
+     allocation  <=  K * n + C       with K = 1024, C = 1 MiB   (n = input length in bytes)
+     time        <=  5 s of CPU time of the inspecting thread for inputs up to 1 MiB
+     read        <=  128 MB = 128 000 000 bytes of any input *)
+Definition spec_K : N := 1024.
+Definition spec_C : N := 1048576.
+Definition spec_cpu_us : N := 5000000.
+Definition spec_read_cap : N := 128000000.
+
+(* correspondence of the measured allocation with the model's account (both directions):
+     measured <= 4 * cost + 128 KiB   and   cost <= 2 * measured + 16 KiB *)
+Definition model_slack_up : N := 4.
+Definition model_base_up : N := 131072.
+Definition model_slack_down : N := 2.
+Definition model_base_down : N := 16384.
+
+Definition input_len (d : arg) : N :=
+  match d with
+  | AB b => lenN b
+  | AL [AB p; AB q; AZ c; AB s] => lenN p + lenN q * Z.to_N c + lenN s
+  | _ => 0
+  end.
+
+(* where the allocation came from, when a third-party reader model explains it *)
+Definition diagnose (comp : bytes) (d : arg) : bytes :=
+  match d with
+  | AB data =>
+      if prefix_of jks_magic data || prefix_of jceks_magic data then
+        (if log_trusting (snd (jks_parse data)) then bs " [jks-go readJKSEntries: a length or count field exceeds the bytes remaining]" else [])
+      else if prefix_of [237; 171; 238; 219] data then
+        (if log_trusting (snd (rpm_parse data)) then bs " [go-rpm ReadPackageHeader: a length or count field exceeds the bytes remaining]" else [])
+      else []
+  | _ => []
+  end.
+
+Definition check_C08 (op : bytes) (input impl : arg) : arg :=
+  if bytes_eqb op (bs "stream") then
+    if negb (Z.eqb (arg_Z (arg_nth 0 impl)) 0) then AS "inspection of an endless input did not terminate normally"
+    else if spec_read_cap <? arg_N (arg_nth 1 impl) then AS "more than 128 MB of the input were read"
+    else AL []
+  else if bytes_eqb op (bs "file") then
+    if negb (Z.eqb (arg_Z (arg_nth 0 impl)) 0) then AS "inspection of a device or oversized file did not terminate normally"
+    else if negb (arg_bool (arg_nth 1 impl)) then AS "no report for a device or oversized file"
+    else AL []
+  else if bytes_eqb op (bs "alloc") then
+    let comp := arg_bytes (arg_nth 0 input) in
+    let d := arg_nth 2 input in
+    let n := input_len d in
+    let status := arg_Z (arg_nth 0 impl) in
+    let meas := arg_N (arg_nth 1 impl) in
+    let cpu := arg_N (arg_nth 3 impl) in
+    if (status =? 5)%Z then AB (bs "allocation not bounded by input size: the memory limit was exhausted" ++ diagnose comp d)
+    else if (status =? 4)%Z then AS "time not bounded: no result within the 300 s wall-clock deadline of the worker"
+    else if (status =? 3)%Z then AB (bs "fatal runtime error during inspection" ++ diagnose comp d)
+    else if spec_K * n + spec_C <? meas then
+      AB (bs "allocation not bounded by input size: " ++ dec_of_N meas ++ bs " bytes allocated for an input of "
+          ++ dec_of_N n ++ bs " bytes (bound 1024*n + 1 MiB)" ++ diagnose comp d)
+    else if (n <=? 1048576) && (spec_cpu_us <? cpu) then
+      AB (bs "time not bounded: " ++ dec_of_N (cpu / 1000) ++ bs " ms of CPU time for an input of " ++ dec_of_N n ++ bs " bytes (limit 5 s)")
+    else
+      match d with
+      | AB data =>
+          match component_log comp data (arg_bytes (arg_nth 3 input)) with
+          | Some l =>
+              let c := log_cost l in
+              if model_slack_up * c + model_base_up <? meas then
+                AB (bs "model: measured allocation " ++ dec_of_N meas ++ bs " exceeds the modelled allocation sites (cost " ++ dec_of_N c ++ bs ")")
+              else if model_slack_down * meas + model_base_down <? c then
+                AB (bs "model: modelled allocation (cost " ++ dec_of_N c ++ bs ") did not happen (measured " ++ dec_of_N meas ++ bs ")")
+              else AL []
+          | None => AL []
+          end
+      | _ => AL []
+      end
+  else AL [].
